@@ -213,6 +213,11 @@ mod membership;
 mod network;
 mod utils;
 
+#[cfg(feature = "verif-hooks")]
+#[doc(hidden)]
+#[allow(missing_docs)]
+pub mod verif_export;
+
 // ==================== Test Utilities ====================
 
 /// Standardized test suite for custom [`StateMachine`] implementations.
